@@ -1,7 +1,7 @@
 (* Properties/C06.v — statements only.  C06: a memory limit bounds accounted
    allocation; releasing never underflows or crashes.  Model: GV.Ctx.Model. *)
 From Coq Require Import ZArith List.
-From GV Require Import Ctx.Model Ctx.Proofs.
+From GV Require Import Ctx.Model Ctx.Proofs Ctx.NestModel Ctx.Nest Ctx.Exact Ctx.MemExact.
 Import ListNotations.
 Open Scope Z_scope.
 
@@ -28,3 +28,58 @@ Theorem C06_release_total :
   exists c', releaseMem amt c = ROk c' /\ 0 <= mem (used c') <= mem (used c).
 Proof. exact releaseMem_total. Qed.
 Print Assumptions C06_release_total.
+
+(* Exactness of a hard memory limit on a program without nested boundary:
+   the IM (requireMem / ReleaseMem through the CallContext skeleton) equals
+   the running-balance specification [mspec] for EVERY list of requests and
+   releases and EVERY limit: killed at the first request that takes the
+   balance to or past L (nothing after it runs, the counter stays below L),
+   otherwise completes with exactly the final balance; a release larger than
+   the balance saturates at 0. *)
+Theorem C06_flat_mem_exact :
+  forall L os, 0 < L < SMALL -> Forall mop_ok os ->
+  let '(m', r) := exec (mlimited L) (mflat os) in
+  match mspec L 0 os with
+  | None => r = Terminated /\ st (cur m') = Killed /\ 0 <= mem (used (cur m')) < L
+  | Some b => r = Normal /\ st (cur m') = Live /\ mem (used (cur m')) = b /\ 0 <= b < L
+  end.
+Proof. exact flat_mem_exact. Qed.
+Print Assumptions C06_flat_mem_exact.
+
+(* ... i.e. killed if and only if some balance the program goes through
+   reaches the limit (the peak, not the total and not the final value). *)
+Theorem C06_flat_mem_kill_iff_peak :
+  forall L os, 0 < L < SMALL -> Forall mop_ok os ->
+  let '(m', r) := exec (mlimited L) (mflat os) in
+  (r = Terminated <-> Exists (fun b => L <= b) (balances 0 os)) /\
+  (r = Normal \/ r = Terminated).
+Proof. exact flat_mem_kill_iff_peak. Qed.
+Print Assumptions C06_flat_mem_kill_iff_peak.
+
+(* The specification completes exactly when every balance stays below L. *)
+Theorem C06_mspec_completes_iff_below :
+  forall L os, Forall mop_ok os -> forall u, 0 <= u < L ->
+  (exists b, mspec L u os = Some b) <-> Forall (fun b => b < L) (balances u os).
+Proof. exact mspec_some_iff. Qed.
+Print Assumptions C06_mspec_completes_iff_below.
+
+(* A memory limit above the peak never changes behaviour or accounting. *)
+Theorem C06_limit_above_peak_same :
+  forall L1 L2 os, 0 < L1 <= L2 -> L2 < SMALL -> Forall mop_ok os ->
+  Forall (fun b => b < L1) (balances 0 os) ->
+  let '(m1, r1) := exec (mlimited L1) (mflat os) in
+  let '(m2, r2) := exec (mlimited L2) (mflat os) in
+  r1 = Normal /\ r2 = Normal /\ mem (used (cur m1)) = mem (used (cur m2)) /\
+  st (cur m1) = Live /\ st (cur m2) = Live.
+Proof. exact flat_mem_limit_above_peak_same. Qed.
+Print Assumptions C06_limit_above_peak_same.
+
+(* Non-vacuity / saturating release at work. *)
+Theorem C06_mem_exact_applies :
+  (let '(m, r) := exec (mlimited 100) (mflat [MA 30; MR 50; MA 90]) in
+     r = Normal /\ mem (used (cur m)) = 90) /\
+  (let '(m, r) := exec (mlimited 100) (mflat [MA 30; MR 20; MA 90; MA 1]) in
+     r = Terminated /\ mem (used (cur m)) = 10 /\ st (cur m) = Killed) /\
+  balances 0 [MA 30; MR 20; MA 90; MA 1] = [30; 10; 100; 101].
+Proof. exact mem_exact_applies. Qed.
+Print Assumptions C06_mem_exact_applies.
